@@ -203,12 +203,12 @@ def tmpdir():
 # process runner
 
 class Res:
-    __slots__ = ('rc', 'sig', 'out', 'err', 'timed_out', 'deadlock', 'wall', 'gdb', 'argv', 'cpu_s')
+    __slots__ = ('rc', 'sig', 'out', 'err', 'timed_out', 'deadlock', 'wall', 'gdb', 'argv', 'cpu_s', 'extra')
 
     def __init__(self):
         self.rc = None; self.sig = None; self.out = b''; self.err = b''
         self.timed_out = False; self.deadlock = False; self.wall = 0.0
-        self.gdb = ''; self.argv = None; self.cpu_s = None
+        self.gdb = ''; self.argv = None; self.cpu_s = None; self.extra = None
 
     @property
     def status(self):
